@@ -15,6 +15,6 @@ for p in $PROPS; do
     done
   done &
 done
-wait; fail=0
+wait
 [ $fail = 0 ] && echo "determinism ok: $PROPS x $N seeds x 4 processes"
 exit $fail
